@@ -947,6 +947,9 @@ where
                     return Err(ActorErr::Cancelled);
                 }
             }
+        } else {
+            // signaled: not a clean shutdown, so the last state isn't captured
+            return Err(ActorErr::Cancelled);
         }
 
         Ok(exit_reason)
